@@ -212,5 +212,29 @@ def case_st(draw):
     }
 
 
+@st.composite
+def long_case(draw):
+    """long irregular series consumed by one or a few coarse pulls (dozens of buffered publications per pull)"""
+    n = draw(st.integers(30, 90))
+    pubs = [[draw(st.sampled_from([1, 5, 10, 10, 60, 180])), draw(st.integers(-20, 20))] for _ in range(n)]
+    end = sum(g for g, _ in pubs[:-1])
+    k = draw(st.integers(1, 3))
+    pulls = sorted({0, end} | {draw(st.integers(1, end)) for _ in range(k - 1)})
+    kind = draw(st.sampled_from(["sum", "avg"]))
+    return {
+        "kind": kind,
+        "step": draw(st.sampled_from([None, None, 0.0, 0.5, 1.0])),
+        "per_time": draw(st.booleans()) if kind == "sum" else True,
+        "unit": draw(st.sampled_from(["m/s", "mm/d", "m"])),
+        "pubs": pubs,
+        "pulls": pulls,
+        "pulls2": sorted({draw(st.integers(1, end)) for _ in range(draw(st.integers(3, 12)))}),
+        "ahead": n,  # the producer runs far ahead: everything is buffered before the consumer pulls
+    }
+
+
 def parts():
-    return [Part("histories", check, strategy=case_st(), budget={"quick": 2000, "thorough": 60000})]
+    return [
+        Part("histories", check, strategy=case_st(), budget={"quick": 2000, "thorough": 60000}),
+        Part("long_series", check, strategy=long_case(), budget={"quick": 120, "thorough": 4000}),
+    ]
